@@ -18,7 +18,8 @@ CONSTANTS Part,            \* "presets" | "keep" | "fw"
           Preset,          \* [PresetNames -> set of transformer names]  (extracted from the vault at check time)
           MaxList,         \* preset lists of length 1..MaxList
           ResetInsideLoop, \* named deviation: the collection is re-initialised for every namespace of the list
-          MaxRowsKeep,     \* keep rule: columns of 1..MaxRowsKeep rows
+          MaxRowsKeep,     \* keep rule: every symbol multiset on 1..MaxRowsKeep rows
+          MaxRowsBig,      \* ... and the multisets within one row of the 80% / 75% thresholds up to this many rows
           SqrtBound,       \* fw: an integer >= sqrt(MaxX / Scale)
           Resolutions, Thresholds, MaxX, Scale   \* fw: x and gt are integers / Scale (Scale = 1: integers, 100: probabilities)
 
@@ -39,7 +40,15 @@ Keep(c) == /\ DistinctOf(c) > 1
            /\ 100 * c[1] < 75 * NRowsOf(c)
 \* the statement can be read with NaN counting as a distinct value or not: ambiguous columns are marked
 Ambiguous(c) == c[1] > 0 /\ Cardinality({i \in 2..4 : c[i] > 0}) = 1
-CountVectors == {c \in [1..4 -> 0..MaxRowsKeep] : NRowsOf(c) >= 1 /\ NRowsOf(c) <= MaxRowsKeep}
+AbsI(x) == IF x < 0 THEN -x ELSE x
+BigN == (MaxRowsKeep + 1)..MaxRowsBig
+Near80(n) == {m \in 1..n : AbsI(100 * m - 80 * n) <= 100}
+Near75(n) == {m \in 1..n : AbsI(100 * m - 75 * n) <= 100}
+\* most frequent ordinary value within one row of 80%, with 0 / 1 / half of the remaining rows NaN
+NearMajority == UNION {{<<k, m, n - m - k, 0>> : k \in {0, 1, (n - m) \div 2} \cap 0..(n - m)} : <<n, m>> \in {<<n2, m2>> \in BigN \X (1..MaxRowsBig) : m2 \in Near80(n2)}}
+\* NaN share within one row of 75%, the rest on one or two values
+NearNaN == UNION {{<<m, a, n - m - a, 0>> : a \in {0, 1, (n - m) \div 2, n - m} \cap 0..(n - m)} : <<n, m>> \in {<<n2, m2>> \in BigN \X (1..MaxRowsBig) : m2 \in Near75(n2)}}
+CountVectors == {c \in [1..4 -> 0..MaxRowsKeep] : NRowsOf(c) >= 1 /\ NRowsOf(c) <= MaxRowsKeep} \cup NearMajority \cup NearNaN
 
 \* ---------------------------------------------------------------- (3) fw family, sqrt kind
 \* fw = <<res, gt, x>> with the real threshold gt/Scale and input x/Scale
